@@ -28,6 +28,17 @@ var RepoDir = func() string {
 	return "/repo"
 }()
 
+// OutDir is where evidence and replay files go: /verif, except in mutation
+// experiments (VERIF_REPO set), whose output must not clobber real evidence.
+func OutDir() string {
+	if os.Getenv("VERIF_REPO") != "" {
+		d := filepath.Join(os.TempDir(), "verif-mut-out")
+		_ = os.MkdirAll(d, 0o755)
+		return d
+	}
+	return VerifDir
+}
+
 // CheckFunc runs one property check. A returned error means "inconclusive"
 // (tool failure, exit 2); violations are recorded with Ctx.Violate.
 type CheckFunc func(c *Ctx) error
@@ -247,7 +258,7 @@ func Main(prop, tier, replay string) int {
 	// de-duplicate KNOWN-FINDING noise is not needed: keys are unique.
 
 	for i := range fresh {
-		dir := filepath.Join(VerifDir, "replays", prop)
+		dir := filepath.Join(OutDir(), "replays", prop)
 		_ = os.MkdirAll(dir, 0o755)
 		name := sanitize(fresh[i].Key)
 		if len(name) > 80 {
@@ -330,7 +341,7 @@ func (c *Ctx) writeEvidence(nviol int, runErr error) error {
 	if err != nil {
 		return err
 	}
-	dir := filepath.Join(VerifDir, "evidence")
+	dir := filepath.Join(OutDir(), "evidence")
 	_ = os.MkdirAll(dir, 0o755)
 	return os.WriteFile(filepath.Join(dir, c.Prop+".json"), b, 0o644)
 }
